@@ -8,6 +8,8 @@
      trl <mt: 4 complex> <mr: 4 complex> <ml: 4 complex> <lguess> <rguess> <disc> <sqrt disc> <n/d> <sqrt n/d>
           -> "trl <l> <r>"   the model's trl_solve with csqrt answered by the nearer of the two given
              (argument, root) pairs
+     dispatch <type> <rows> <cols> <unknowns> <correlated> <m_error> <nstd> {Z|O|K<id>|U<id>|C<id>}*4*nstd
+          -> "dispatch trl|simple|auto"
      dof <unknowns> <nsys> <eq count>*nsys <ncells> <leak count>*ncells  -> "dof <df>"
    Reals are exact rationals "p/q", complex numbers two reals. *)
 #include "glue.ml.inc"
@@ -54,6 +56,23 @@ let () =
            let sq (z : qi) : qi = if dist z disc <= dist z nd then sdisc else snd_ in
            let (l, r) = q_trl_solve sq mt mr ml (o lg) (o rg) in
            Printf.printf "trl %s %s\n" (string_of_qi (u l)) (string_of_qi (u r))
+         | "dispatch" ->
+           (* dispatch <type> <rows> <cols> <unknowns> <correlated> <m_error> <nstd> { 4 cells }*nstd
+              cell: Z | O | K<id> | U<id> | C<id> *)
+           let ty = (match next () with
+               | "T8" -> T8 | "U8" -> U8 | "TE10" -> TE10 | "UE10" -> UE10 | "T16" -> T16
+               | "U16" -> U16 | "UE14" -> UE14 | _ -> E12) in
+           let rows = int_of_string (next ()) in let cols = int_of_string (next ()) in
+           let unk = int_of_string (next ()) in let corr = int_of_string (next ()) in
+           let me = b_of (next ()) in
+           let nstd = int_of_string (next ()) in
+           let cell () = let t = next () in
+             let id () = nat_of_int (int_of_string (String.sub t 1 (String.length t - 1))) in
+             (match t.[0] with 'Z' -> Zero | 'O' -> One | 'K' -> Known (id ()) | 'U' -> Unknown (id ()) | _ -> Corr (id ())) in
+           let stds = times nstd (fun () ->
+               let a = cell () in let b = cell () in let c = cell () in let d = cell () in (((a, b), c), d)) in
+           let p = dispatch ty (nat_of_int rows) (nat_of_int cols) stds (nat_of_int unk) (nat_of_int corr) me in
+           Printf.printf "dispatch %s\n" (match p with PathTrl -> "trl" | PathSimple -> "simple" | PathAuto -> "auto")
          | "dof" ->
            (* dof <unknowns> <nsys> <eq count>*nsys <ncells> <leak count>*ncells *)
            let zi () = coqz_of_z (ZZ.of_string (next ())) in
